@@ -152,7 +152,7 @@ func applyPairs(entry string, pairs [][2]string) string {
 // and — when it declares prefixes or suffixes — wrapped so that they bind only
 // its own entries. defsOut receives the file's own definitions.
 func fileBody(name string, files *Files, depth int, defsOut map[string]string) ([]string, error) {
-	if depth > 8 {
+	if depth > 100 {
 		return nil, fmt.Errorf("include depth")
 	}
 	text, ok := files.lookup(name)
